@@ -1,4 +1,5 @@
-KERNELS = {'C15_index': dict(src='kernels/C15_index.cpp', flags=['-DNDEBUG'])}
+KERNELS = {'C15_index': dict(src='kernels/C15_index.cpp', flags=['-DNDEBUG']),
+           'C15_views': dict(src='kernels/C15_views.cpp', flags=['-DNDEBUG'])}
 SH = 'shapes are static_vector<size_t,4> of symbolic length 0..4 with symbolic extents 1..MAXE; '
 
 
@@ -7,24 +8,68 @@ def _i(name, bounds, unwind=7, quick=None, thorough=None, **kw):
                 quick=quick or [{'MAXE': 4}], thorough=thorough or [{'MAXE': 6}], **kw)
 
 
+# TEMPORARY: exclusion macros of the pending findings below (see PENDING_FINDINGS); to be moved to known_findings.json by the lead
+KF_RESHAPE = {'KF_C15_RESHAPE_SCALAR_TARGET': 1}
+
+
 HARNESSES = [
  _i('broadcast_shape', 'both operand shapes symbolic (compatible and incompatible)'),
  _i('broadcast_shape3', 'three operand shapes symbolic', quick=[{'MAXE': 3}], thorough=[{'MAXE': 4}]),
  _i('shape_broadcast_to', 'source and target shapes symbolic (target shorter than source, mismatching extents included)'),
  _i('shape_reshape', 'target static_vector<int,4> of symbolic length 0..4 with entries LO..HI symbolic (several -1, -2, 0, count mismatches included)',
-    quick=[{'MAXE': 4, 'LO': -2, 'HI': 8}], thorough=[{'MAXE': 5, 'LO': -3, 'HI': 16}]),
+    quick=[dict({'MAXE': 4, 'LO': -2, 'HI': 8}, **KF_RESHAPE)], thorough=[dict({'MAXE': 5, 'LO': -3, 'HI': 16}, **KF_RESHAPE)]),
  _i('shape_reshape_maybe', 'maybe<shape> source (Nothing or value, symbolic), target length 1..4 entries LO..HI', quick=[{'MAXE': 3, 'LO': -2, 'HI': 8}]),
  _i('normalize_axis', 'ndim 0..4, axis in [-ndim-2, ndim+1]; (int,int) and (int,size_t) overloads'),
  _i('normalize_axes', 'ndim 0..4, list of 0..4 axes (static_vector<int,4>) and array<int,3>, entries in [-ndim-2, ndim+1], duplicates included'),
  _i('moveaxis_to_transpose', 'source and destination single axes in [-ndim-2, ndim+1]'),
- _i('moveaxis_to_transpose_list', 'source / destination lists of symbolic lengths 0..4, entries in [-ndim-2, ndim+1], duplicates and unequal lengths included'),
+ _i('moveaxis_to_transpose_list', 'source / destination lists of symbolic lengths 0..4, entries in [-ndim-2, ndim+1], duplicates and unequal lengths included',
+    quick=[{'MAXE': 4, 'KF_C15_MOVEAXIS_REPEATED_AXIS': 1}], thorough=[{'MAXE': 6, 'KF_C15_MOVEAXIS_REPEATED_AXIS': 1}]),
  _i('shape_pad', 'pad widths static_vector<size_t,8> of symbolic length 0..8, widths 0..3 (unsigned: negative widths are not representable)', unwind=11),
  _i('shape_roll', 'shift in -9..9, axis in [-ndim-2, ndim+1]'),
  _i('shape_roll_list', 'shift/axis lists of symbolic length 0..4, axes in [-ndim-2, ndim+1], duplicates included'),
  _i('shape_resize', 'target static_vector<int,4> length 0..4 entries LO..HI'),
  _i('shape_atleast_nd_maybe', 'maybe<shape> source (Nothing or value), nd 0..4'),
- _i('shape_concatenate', 'both shapes symbolic, axis in [-ndim-2, ndim+1]'),
- _i('shape_matmul', 'both shapes symbolic (0-d operands, contraction mismatch, batch-broadcast mismatch included)'),
+ _i('shape_concatenate', 'both shapes symbolic, axis in [-ndim-2, ndim+1]', quick=[{'MAXE': 4, 'KF_C15_CONCATENATE_AXIS': 1}], thorough=[{'MAXE': 6, 'KF_C15_CONCATENATE_AXIS': 1}]),
+ _i('shape_matmul', 'both shapes symbolic (0-d operands, contraction mismatch, batch-broadcast mismatch included)', quick=[{'MAXE': 4, 'KF_C15_MATMUL_0D': 1}], thorough=[{'MAXE': 6, 'KF_C15_MATMUL_0D': 1}]),
+]
+
+SV = 'hybrid 2-d source array(s) (capacity 16) with symbolic extents 1..MAXE and symbolic 32-bit data, symbolic result index; '
+
+
+def _vc(e=3, **kw):
+    c = {'MAXE': e, '_unwindset': ['in_data.0:%d' % (e * e + 2), 'k_fill_u32.0:%d' % (e * e + 2)]}; c.update(kw); return c
+
+
+def _v(name, bounds, func=None, unwind=7, quick=None, thorough=None, **kw):
+    return dict(name=name, src='harnesses/C15_views.c', func='h_' + (func or name), kernels=['C15_views'], unwind=unwind, bounds=SV + bounds,
+                quick=quick or [_vc(3)], thorough=thorough or [_vc(4)], **kw)
+
+
+TGT = 'reshape target static_vector<int,4>, entries -2..9 symbolic; target length: '
+SYMND = 'symbolic 0..4'
+CND = 'a per-query constant ND (quick 1..3, thorough 0..4), enumerated'
+
+
+def _nd(nds, e=3, **kw): return [_vc(e, ND=n, **dict(KF_RESHAPE, **kw)) for n in nds]
+
+
+HARNESSES += [
+ _v('v_reshape', TGT + SYMND, quick=[_vc(3, **KF_RESHAPE)], thorough=[_vc(4, **KF_RESHAPE)]),
+ _v('v_reshape_transpose', TGT + SYMND + '; pipeline transpose(reshape(a, s))', quick=[_vc(3, **KF_RESHAPE)], thorough=[_vc(4, **KF_RESHAPE)]),
+ _v('v_reshape_transpose_eval', 'reshape target array<int,2> (fixed length 2), entries -2..9 symbolic; pipeline eval(transpose(reshape(a, s))) into a hybrid result', func='v_reshape_transpose', mem_gb=6,
+    quick=_nd((2,), e=3, EVAL=1, _unwind=11), thorough=_nd((2,), e=4, EVAL=1, _unwind=18)),
+ _v('v_reshape_transpose_flatten', TGT + CND + '; pipeline flatten(transpose(reshape(a, s)))', mem_gb=6, quick=_nd((1, 2, 3)), thorough=_nd((0, 1, 2, 3, 4))),
+ _v('v_reshape_add', 'reshape target array<int,2> (fixed length 2), entries -2..9 symbolic; pipeline add(reshape(a, s), b), b a second symbolic 2-d array (reshape failure and broadcast failure)',
+    quick=_nd((2,)), thorough=_nd((2,), e=4)),
+ _v('v_broadcast_transpose_sum', 'broadcast target array<size_t,3> (fixed length 3), extents 1..MAXE symbolic; pipeline sum(transpose(broadcast_to(a, t)), 0)'),
+ _v('v_matmul_transpose', 'pipeline transpose(matmul(a, b)), contraction extents symbolic; has_value and shape only', quick=[_vc(3, KF_C15_MATMUL_VIEW=1)], thorough=[_vc(4, KF_C15_MATMUL_VIEW=1)]),
+ _v('v_moveaxis', 'source/destination axes in [-4, 3]'),
+ _v('v_transpose_axes', 'explicit axes array<int,2>, entries in [-4, 3] (out of range, repeated, negative)', quick=[_vc(3, KF_C15_TRANSPOSE_AXES=1)], thorough=[_vc(4, KF_C15_TRANSPOSE_AXES=1)]),
+ _v('v_swapaxes', 'axes in [-4, 3]', quick=[_vc(3, KF_C15_SWAPAXES_AXIS=1)], thorough=[_vc(4, KF_C15_SWAPAXES_AXIS=1)]),
+ _v('v_expand_dims', 'axis in [-5, 4]', quick=[_vc(3, KF_C15_EXPAND_DIMS_AXIS=1)], thorough=[_vc(4, KF_C15_EXPAND_DIMS_AXIS=1)]),
+ _v('v_flip', 'axis in [-4, 3]', quick=[_vc(3, KF_C15_FLIP_AXIS=1)], thorough=[_vc(4, KF_C15_FLIP_AXIS=1)]),
+ _v('v_sum', 'reduction axis in [-4, 3]', quick=[_vc(3, KF_C15_REDUCE_AXIS=1)], thorough=[_vc(4, KF_C15_REDUCE_AXIS=1)]),
+ _v('v_concatenate', 'two symbolic 2-d operands, axis in [-4, 3] (mismatching off-axis extents included)', quick=[_vc(3, KF_C15_CONCATENATE_VIEW=1)], thorough=[_vc(4, KF_C15_CONCATENATE_VIEW=1)]),
 ]
 OUTSIDE = []
 ASSUMPTIONS = []
